@@ -563,6 +563,55 @@ def _is_trivial_size_guard(n) -> bool:
 # ----------------------------------------------------------------------------------------
 
 
+def check_ctor_spellings(ctx: Ctx):
+    """R03.8 (spellings): a matcher constructor that still accepts an option positionally through a catch-all
+    (`*legacy`), next to the keyword-only spelling, stores the same settings for both spellings of the same value."""
+    from fractions import Fraction
+
+    prog = ctx.prog
+    n = 0
+    for cls, f in matcher_classes(ctx):
+        init = cls.lookup("__init__")
+        if init is None:
+            continue
+        va = next((p for p in init.call_params if p.kind == "vararg"), None)
+        kwonly = [p for p in init.call_params if p.kind == "kwonly" and isinstance(p.default, ast.Constant) and isinstance(p.default.value, bool)]
+        if va is None or not kwonly:
+            continue
+        names = [p.name for p in init.call_params]
+        tp = next((x for x in names if "thr" in x.lower()), None)
+        mp = next((x for x in names if "metric" in x.lower()), None)
+        me = make_metric_objs(prog, False)[1]
+        base = {}
+        if tp:
+            base[tp] = Fraction(1, 2)
+        if mp:
+            base[mp] = me
+        # the catch-all takes the options in the order the keyword-only parameters are declared
+        for k, p in enumerate(kwonly[:1]):
+            for val in (False, True):
+                states = []
+                for spelling, extra in (("keyword", {p.name: val}), ("positional", {va.name: (val,)})):
+                    o = Obj(cls, {})
+                    try:
+                        out = Interp(prog, init, {**base, **extra}, self_obj=o).run()
+                    except (Undecided, AnchorMissing):
+                        out = None
+                    if out is None or out.kind == "raise" or out.decisions:
+                        states = None
+                        break
+                    states.append({a: v for a, v in o.attrs.items()})
+                construct = f"{init.qual}:{p.name}={val}"
+                n += 1
+                if states is None:
+                    ctx.ok("R03.8", init, init.node, construct, "the catch-all is not a positional spelling of this option (constructor refuses it): not compared", None, nontrivial=False)
+                    continue
+                diff = sorted(a for a in set(states[0]) | set(states[1]) if repr(states[0].get(a)) != repr(states[1].get(a)))
+                ctx.decide("R03.8", init, init.node, construct, "the positional (deprecated) and the keyword spelling of the option store the same settings", not diff, {a: {"keyword": repr(states[0].get(a)), "positional": repr(states[1].get(a))} for a in diff} or None)
+    if n == 0:
+        ctx.ok("R03.8", None, None, "matcher-constructors:spellings", "no matcher constructor accepts an option in two spellings", None, nontrivial=False)
+
+
 def check_effective_threshold(ctx: Ctx):
     """R03.8: the threshold a matcher works with is the one it was given - for every NUMBER, including 0
     (a threshold of 0 is the strictest ASSD threshold and the most permissive IoU/Dice threshold).  The
@@ -1476,6 +1525,7 @@ def check(ctx: Ctx):
     _guarded(ctx, "R03.3", check_beats)
     _guarded(ctx, "R03.9", check_metric_twins)
     _guarded(ctx, "R03.8", check_effective_threshold)
+    _guarded(ctx, "R03.8", check_ctor_spellings)
     n = _guarded(ctx, "R03.4", check_naive)
     # completeness of candidate discovery also needs the pair codes not to wrap (R09.1)
     from . import c09
